@@ -2,6 +2,7 @@
 
 theorems: the property theorems (names relative to `namespace`, default PolyVerif.<id>) whose
           kernel check and axiom audit constitute the proof obligations of the property.
+helper_theorems: lemmas worth naming (audited for axioms like the others) that are not counted as proof obligations.
 modules:  Lean modules to build (default PolyVerif.Props.<id>).
 gen:      Gen/ modules regenerated from /repo before the build
           (dict(spec=..., out=...) for the translator; dict(tool="facts", mode=..., out=..., args=[...]) for extractors).
